@@ -7,6 +7,7 @@ ids=${@:-C01 C02 C03 C04 C05 C06 C07 C08 C09 C10 C11 C12 C13 C14 C15 C16 C17 C18
 tier=${TIER:-quick}
 par=${PAR:-6}
 export VERIF_NO_EVIDENCE=1
+export VERIF_EVIDENCE_DIR=${VERIF_EVIDENCE_DIR:-/tmp/soak-evidence}
 out=$(mktemp -d)
 for s in $(seq $first $last); do
   for id in $ids; do
